@@ -25,11 +25,15 @@ CONFIGS = {
 def run(tier):
     chk = Check("C06", tier)
     for (module, cfg, ov, stride) in CONFIGS[tier]:
+        # thorough: the two twins (DAQmx storage, carried no-data objects) of every third file only - the plain sweep of
+        # every cut of every file already takes most of an hour
+        every = 1 if tier == "quick" else 3
         run_config(chk, module, cfg, ov,
-                   lambda rec, i, stride=stride: {"rec": rec, "seed": chk.seed, "variant": i % 5, "stride": stride},
+                   lambda rec, i, stride=stride, every=every: {"rec": rec, "seed": chk.seed, "variant": i % 5,
+                                                               "stride": stride, "twins": i % every == 0},
                    "harness.truncate", "replay_trunc_case",
                    sample_fn=lambda rec: {"file": rec["file"], "fileLen": rec["fileLen"], "cuts": rec["cuts"][-3:]},
-                   sample_every=211, expect_all_states=False)
+                   sample_every=211, expect_all_states=False, timeout=4 * 3600)
     # composition (TdmsSystem): writer sessions -> crash -> readers with / without the writer's index file, long
     # simulated behaviours replayed on a scratch directory
     from ..system import run_system
